@@ -54,3 +54,9 @@ claim('C03', 'c03_maps.c',
       'the solver shows results equal an ideal dictionary, set reports replacement, the map keeps its own copies (the key and value objects of the caller are deleted before the read-back), '
       'a removed pair is handed back once and unreachable afterwards, outputs are in ascending key order, and the representation invariant (incl. back links and tail) holds after every removal.',
       'DESIGN.md section 4, C03')
+claim('C20', 'c20_debug.c',
+      'CBMC check of the debug/assert macro ladders: one build per compile-time DEBUG value, runtime level (all 2^32 values), silent flag and asserted condition symbolic; real msgs.c/debug.c over counting fprintf/vfprintf/exit stubs',
+      'For each of ten compile-time DEBUG values and each macro of the family the solver shows, for every runtime level and silent setting: D_*/DPRINTFn print and evaluate '
+      'their arguments exactly when compiled in and the level is reached; silenced message functions print nothing and return; a failed ASSERT warns and returns the stated value at '
+      'level 0 and ends the process (only) at level >= 1; a failed REQUIRE returns the value and logs only at level >= 1; with DEBUG 0 ASSERT vanishes and REQUIRE is the bare return.',
+      'DESIGN.md section 4, C20')
